@@ -61,6 +61,12 @@ def run(ctx):
                 ev = Evaluator(p, be)
                 v, f = ev.call_function('bip32.PubKeyNode.parse', [T.clsref(cls), ev.new_stream(B), tn])
                 same_term(ob, v, exp, 'parse(BytesIO) is the same parser', fp_.where)
+                # a stream that continues after the 78 bytes: exactly 78 are consumed, the key is 33 bytes
+                ev = Evaluator(p, be)
+                st = ev.new_stream(T.cat(B, S('trailing', type='bytes')))
+                v, f = ev.call_function('bip32.PubKeyNode.parse', [T.clsref(cls), st, tn])
+                same_term(ob, v, exp, 'parse(BytesIO) of a longer stream reads exactly the 78-byte node', fp_.where)
+                same_term(ob, ev.stream_state(st)[1], T.const(78), 'parse consumes exactly 78 bytes of the stream', fp_.where)
                 # str: through the checksummed decoder
                 summ = dict(X.DEFAULT_SUMMARIES)
                 summ['helper.decode_base58_checksum'] = lambda ev_, fi, env, facts, B=B: (B, facts)
